@@ -1,11 +1,7 @@
 #!/bin/bash
-# Development tool: runs each seeded mutant against the check of its own property (and prints
-# whether it is detected). usage: seedmatrix.sh [prop-filter]
+# Development tool: runs each seeded mutant against the check of its own property.
+# usage: seedmatrix.sh [filter]   -> writes /verif/seeded/MATRIX.txt
 F="${1:-}"
-for d in /verif/seeded/*${F}*/; do
-  id=$(basename $d); P=${id%-*}
-  grep -q "\"$P\"" /verif/MANIFEST.json || { echo "$id: property not claimed"; continue; }
-  if ! grep -q "\"property_id\": \"$P\"" <(python3 -c "import json;print('\n'.join('\"property_id\": \"%s\"'%c['property_id'] for c in json.load(open('/verif/MANIFEST.json'))['checks']))"); then echo "$id: no check"; continue; fi
-  out=$(MUT_LINES=3 /verif/tools/mutcheck.sh $d/patch.diff $P 2>&1 | tail -1)
-  echo "$id: $out"
-done
+one() { d=$1; id=$(basename $d); P=${id%-*}; out=$(MUT_LINES=1 /verif/tools/mutcheck.sh $d/patch.diff $P 2>&1 | tail -1); echo "$id $out"; }
+export -f one
+ls -d /verif/seeded/*${F}*/ | xargs -P 5 -I{} bash -c 'one {}' | sort
